@@ -61,6 +61,18 @@ class ReplayNoise:
         return self.values[:n]
 
 
+class NDNoise:
+    """Noise drawn from a sempler.NormalDistribution that the callable object holds (a user callable whose
+    state contains one of the library's own model objects)."""
+
+    def __init__(self, mean, var):
+        import sys
+        self.dist = sys.modules["sempler"].NormalDistribution(np.array([float(mean)]), np.array([[float(var)]]))
+
+    def __call__(self, n):
+        return self.dist.sample(n)[:, 0]
+
+
 class Failing:
     """Distribution that raises at its k-th invocation (fault kind callable.raise)."""
     _semsim_volatile = ("calls", "fired")      # its own bookkeeping, not caller data
@@ -125,6 +137,8 @@ def make_fn(spec, sempler_noise):
         return ParamNoise(spec[1], spec[2])
     if name == "replay":
         return ReplayNoise(spec[1])
+    if name == "ndnoise":
+        return NDNoise(spec[1], spec[2])
     if name == "noise.normal":
         return sempler_noise.normal(spec[1], spec[2])
     if name == "noise.uniform":
@@ -147,6 +161,6 @@ def is_random_noise(spec):
         return spec[2] > spec[1]
     if n == "noise.laplace":
         return spec[2] > 0
-    if n == "paramnoise":
+    if n in ("paramnoise", "ndnoise"):
         return spec[2] > 0
     return False
